@@ -207,7 +207,7 @@ def run_config(ctx, rep, cfg, fixture_prog=None, raw_prog=None):
             rep.violation("C11.R4", construct(f), fsite(f), "successful init leaves handle field(s) %s unassigned on some path: later calls read caller garbage" % missing, cfg=cn)
         else:
             rep.ok("C11.R4", construct(f), fsite(f), "all fields of %s are must-written on every success path" % ht, cfg=cn)
-        rd = [(addr_str(l.addr, prog), w) for k2, (l, w) in s.reads.items() if l.addr.root == ("arg", 0)]
+        rd = [(addr_str(l.addr, prog), w) for k2, (l, w) in s.reads.items() if l.addr.root == ("arg", 0) and len(l.addr.segs) == 1]
         if rd:
             rep.violation("C11.R7", construct(f), csite(rd[0][1]), "init reads %s of the caller's uninitialised object" % rd[0][0], cfg=cn)
         else:
